@@ -534,6 +534,59 @@ Proof.
   apply tab_ext. intros t Ht. apply sw_at_until; assumption.
 Qed.
 
+(* ---------- precedes[b,e] (what pastify() makes of a bounded until): the same two deques,
+   read from the old end -- shared with PrecedesTimedOperation.update (OnlineCorrect.precedes_step) ---------- *)
+Lemma precedes_window_eq b e bl br :
+  precedes_window b e bl br =
+  rmax (fun i => vmin (rmin (fun j => nth j bl bot) 0 i) (nth i br bot)) b (S e - b).
+Proof.
+  unfold precedes_window, rmax.
+  rewrite (fold_left_vmax_acc (fun i => vmin (fold_left (fun c j => vmin c (nth j bl bot)) (seq 0 i) top) (nth i br bot))).
+  rewrite vmax_bot_l. f_equal. apply map_ext. intros i.
+  rewrite fold_left_vmin_acc, vmin_top_l. reflexivity.
+Qed.
+
+(* rho of Precedes b e f g at t, on the operand columns r1 = rho f, r2 = rho g *)
+Definition precedes_spec (r1 r2 : nat -> V) (b e t : nat) : V :=
+  wmax (fun k => vmin (if k + t <? e then bot else r2 (k + t - e))
+                      (rmin (fun j => if j + t <? e then top else r1 (j + t - e)) 0 k))
+       b e.
+
+Lemma ltb_shift i k e : (S k + i <? S e) = (i + k <? e).
+Proof.
+  destruct (i + k <? e) eqn:E1; destruct (S k + i <? S e) eqn:E2; try reflexivity;
+  [apply Nat.ltb_lt in E1; apply Nat.ltb_ge in E2|apply Nat.ltb_ge in E1; apply Nat.ltb_lt in E2]; lia.
+Qed.
+
+(* the window on the buffers after sample k has been pushed *)
+Lemma precedes_window_buf r1 r2 b e k : b <= e ->
+  precedes_window b e (buf top r1 (S k) e) (buf bot r2 (S k) e) = precedes_spec r1 r2 b e k.
+Proof.
+  intros Hbe. rewrite precedes_window_eq. unfold precedes_spec. rewrite wmax_rmax.
+  apply rmax_ext. intros i Hi. rewrite vmin_comm. f_equal.
+  - rewrite nth_buf by lia. rewrite ltb_shift.
+    destruct (i + k <? e); [reflexivity|]. f_equal. lia.
+  - apply rmin_ext. intros j Hj. rewrite nth_buf by lia. rewrite ltb_shift.
+    destruct (j + k <? e); [reflexivity|]. f_equal. lia.
+Qed.
+
+Lemma precedes_loop_spec b e r1 r2 k len : b <= e ->
+  precedes_loop b e (buf top r1 k e) (buf bot r2 k e) (map (fun t => (r1 t, r2 t)) (seq k len)) =
+  map (precedes_spec r1 r2 b e) (seq k len).
+Proof.
+  intros Hbe. revert k. induction len as [|len IH]; intros k; [reflexivity|].
+  simpl. rewrite !push_buf. f_equal; [|apply IH].
+  apply precedes_window_buf. exact Hbe.
+Qed.
+
+Lemma precedes_tab r1 r2 n b e : b <= e ->
+  precedes_loop b e (repeat top (S e)) (repeat bot (S e)) (combine (tab r1 n) (tab r2 n))
+  = tab (precedes_spec r1 r2 b e) n.
+Proof.
+  intros Hbe. rewrite combine_tab. unfold tab.
+  rewrite <- (buf_0 top r1 e), <- (buf_0 bot r2 e). apply precedes_loop_spec. exact Hbe.
+Qed.
+
 (* ---------- the main theorem ---------- *)
 Definition wf_trace (p : formula) (w : trace) (n : nat) : Prop :=
   forall x, x < nvars p -> length (nth x w []) = n.
@@ -548,10 +601,10 @@ Ltac split_wf :=
   end.
 
 Theorem eval_off_correct (p : formula) (w : trace) (n : nat) :
-  1 <= n -> wf_bounds p = true -> no_precedes p = true -> wf_trace p w n ->
+  1 <= n -> wf_bounds p = true -> wf_trace p w n ->
   eval_off AR pk p w n = tab (rho AR pk p w n) n.
 Proof.
-  intros Hn. induction p; intros Hb Hp Hw; simpl in Hb, Hp; split_wf;
+  intros Hn. induction p; intros Hb Hw; simpl in Hb; split_wf;
   try (assert (Hw1 : wf_trace p w n) by (eapply wf_trace_sub; [|exact Hw]; simpl; lia));
   try (assert (Hw1 : wf_trace p1 w n) by (eapply wf_trace_sub; [|exact Hw]; simpl; lia));
   try (assert (Hw2 : wf_trace p2 w n) by (eapply wf_trace_sub; [|exact Hw]; simpl; lia));
@@ -563,38 +616,38 @@ Proof.
       | apply ev_tab | apply alw_tab | apply until_tab
       | apply oncet_tab; assumption | apply histt_tab; assumption
       | apply sincet_tab; assumption | apply evt_tab; assumption
-      | apply alwt_tab; assumption | apply untilt_tab; assumption ]
+      | apply alwt_tab; assumption | apply untilt_tab; assumption
+      | apply precedes_tab; assumption ]
     | apply tab_ext; intros t Ht; reflexivity ]).
   - (* Var *) rewrite (list_as_tab (nth x w []) bot). rewrite (Hw x) by (simpl; lia). reflexivity.
   - (* Rise *) rewrite removelast_tab, cons_tab by exact Hn. rewrite zipw_tab.
     apply tab_ext; intros t Ht; reflexivity.
   - (* Fall *) rewrite removelast_tab, cons_tab by exact Hn. rewrite zipw_tab.
     apply tab_ext; intros t Ht; reflexivity.
-  - discriminate.
 Qed.
 
 Corollary eval_off_length p w n :
-  1 <= n -> wf_bounds p = true -> no_precedes p = true -> wf_trace p w n ->
+  1 <= n -> wf_bounds p = true -> wf_trace p w n ->
   length (eval_off AR pk p w n) = n.
 Proof. intros. rewrite eval_off_correct by assumption. apply tab_length. Qed.
 
 Corollary eval_off_nth p w n t d :
-  1 <= n -> wf_bounds p = true -> no_precedes p = true -> wf_trace p w n -> t < n ->
+  1 <= n -> wf_bounds p = true -> wf_trace p w n -> t < n ->
   nth t (eval_off AR pk p w n) d = rho AR pk p w n t.
 Proof. intros. rewrite eval_off_correct by assumption. apply nth_tab. assumption. Qed.
 
 Theorem evaluate_correct {T : Type} (p : formula) (ts : list T) (w : trace) :
-  1 <= length ts -> wf_bounds p = true -> no_precedes p = true -> wf_trace p w (length ts) ->
+  1 <= length ts -> wf_bounds p = true -> wf_trace p w (length ts) ->
   evaluate AR pk p ts w = Ok (combine ts (tab (rho AR pk p w (length ts)) (length ts))).
 Proof.
-  intros Hn Hb Hp Hw. unfold evaluate. rewrite Hp, eval_off_correct by assumption. reflexivity.
+  intros Hn Hb Hw. unfold evaluate. rewrite eval_off_correct by assumption. reflexivity.
 Qed.
 
 Theorem evaluate_pairs {T : Type} (p : formula) (ts : list T) (w : trace) r :
-  1 <= length ts -> wf_bounds p = true -> no_precedes p = true -> wf_trace p w (length ts) ->
+  1 <= length ts -> wf_bounds p = true -> wf_trace p w (length ts) ->
   evaluate AR pk p ts w = Ok r -> map fst r = ts /\ length r = length ts.
 Proof.
-  intros Hn Hb Hp Hw H. rewrite evaluate_correct in H by assumption.
+  intros Hn Hb Hw H. rewrite evaluate_correct in H by assumption.
   injection H as <-. split.
   - apply map_fst_combine. rewrite tab_length. lia.
   - rewrite combine_length, tab_length. lia.
